@@ -305,7 +305,7 @@ class History(RuleBasedStateMachine):
         self._call(i, compress, 'reuse', incdirs, reuse_from=(lin, cin))
 
     @precondition(lambda self: len(self.reusable) > 0)
-    @rule(k=st.integers(0, 50), i=st.integers(0, 5), compress=st.booleans(), neighbour=st.integers(-1, 1))
+    @rule(k=st.integers(0, 50), i=st.integers(0, 5), compress=st.booleans(), neighbour=st.sampled_from([0, 0, 0, 1, -1]))
     def assemble_with_dicts_left_over_from_another_program(self, k, i, compress, neighbour):
         j, incdirs, lin, cin = self.reusable[k % len(self.reusable)]
         if neighbour:
@@ -543,6 +543,18 @@ def sibling_job(seed, n):
                          {'kind': 'sibling', 'A': A, 'B': B, 'compress': comp})
             else:
                 res.nt(env.chash((A, B, comp)))
+            # ... and a small unrelated program that uses one of A's label names as a CONSTANT (a constant shadows a left-over
+            # label of the same name): with A's labels dictionary it must assemble to what it gives with an empty one
+            name = labs[k % len(labs)]
+            v = [3, 31, 32, 1000, -5, 0][k % 6]
+            D = '%s = %d\naddi x8, x8, %s\nandi x9, x9, %s\naddi x5, x0, %s\nslti x6, x7, %s\n' % (name, v, name, name, name, name)
+            res.evaluations += 1
+            ref2 = progcheck.assemble(a, D, comp, labels={}, constants={})
+            got2 = progcheck.assemble(a, D, comp, labels=dict(la), constants={})
+            if ref2[0] == 'ok' and (got2[0] != 'ok' or got2[1] != ref2[1]):
+                res.fail('history:leftover_label_vs_constant', 'a program that defines the CONSTANT %s = %d gives %s with an empty labels dictionary and %s with the dictionary left by a '
+                         'program that had a LABEL of that name (compress=%s)' % (name, v, ref2[1].hex(), got2[1].hex() if got2[0] == 'ok' else got2[1], comp),
+                         {'kind': 'sibling', 'A': A, 'B': D, 'compress': comp})
     return res
 
 
